@@ -1,1 +1,127 @@
-fn main(){println!("hi");}
+//! cbsim — deterministic simulation with fault injection for crypto-bigint.
+//!
+//! usage: cbsim run <PROP> [--tier quick|thorough] [--seed N] [--root DIR]
+//!        cbsim replay <PROP> <file> [--root DIR]
+//! exit: 0 property held on everything explored; 1 violation; 2 harness error.
+
+#![allow(dead_code, non_snake_case, unused_mut)]
+mod c19;
+mod core;
+mod dev;
+mod moduli;
+mod monitor;
+mod prng;
+mod util;
+
+use crate::core::{Report, Scenario, Tier};
+use std::collections::BTreeMap;
+use std::path::PathBuf;
+
+fn real_components() -> Vec<String> {
+    [
+        "crypto-bigint at /repo working tree (features alloc, rand_core, serde, der, rlp, hybrid-array, zeroize, extra-sizes)",
+        "rand_core 0.9 traits (RngCore/TryRngCore blanket impls)",
+        "der 0.8.0-rc.1 (Header/Length/UintRef/SliceReader/SliceWriter)",
+        "rlp 0.6 (RlpStream/Rlp)",
+        "serdect 0.3 visitors, bincode 1.3, serde_json",
+        "core::fmt",
+    ]
+    .iter()
+    .map(|s| s.to_string())
+    .collect()
+}
+
+fn scenarios_for(prop: &str) -> Option<(Vec<Box<dyn Scenario>>, Report)> {
+    let base = |property: &'static str, level: &'static str, rule: &str, stubs: &[&str], assumptions: &[&str]| Report {
+        property,
+        level,
+        tier: Tier::Quick,
+        seed: 1,
+        root: PathBuf::from("/verif"),
+        rule: rule.to_string(),
+        assumptions: assumptions.iter().map(|s| s.to_string()).collect(),
+        real_components: real_components(),
+        stub_components: stubs.iter().map(|s| s.to_string()).collect(),
+        extra: BTreeMap::new(),
+    };
+    match prop {
+        "C19" => Some((
+            vec![Box::new(c19::Script), Box::new(c19::Stat)],
+            base(
+                "C19",
+                "exploration",
+                "one run = one plan (API, width, arguments, RNG tape with faults) executed against the real sampler; the first part of the batch enumerates every bit length 0..=BITS+1 per width x {Uint,Int,Boxed,BoxedPrec} x {all-ones, uniform} tapes, the rest is drawn from the per-run seed. distinct_nontrivial = number of distinct abstract states (api, front-end, width, modulus class / bit-length class, tape class, rejection-count bucket, outcome kind) reached; a state is non-trivial by construction because it includes the outcome and tape class",
+                &["RNG source (SimRng byte tape: uniform/const/script/words segments; faults fail-at-call, fail-at-byte, exhaustion)", "reference statements R1-R7 (range via num-bigint comparison, documented error table, chi-square with incomplete-gamma tail)"],
+                &[
+                    "to_words()/from_words() map limb i to weight 2^(64 i) (trusted bridge)",
+                    "num-bigint comparison",
+                    "uniformity is a statistical judgement: chi-square, reject only below p = 1e-12 per test",
+                    "no algorithm-level model of the sampler: value and consumption are never predicted, only compared fixed vs boxed",
+                ],
+            ),
+        )),
+        _ => None,
+    }
+}
+
+fn main() {
+    monitor::install_hook();
+    let args: Vec<String> = std::env::args().collect();
+    let usage = || -> ! {
+        eprintln!("usage: cbsim run <PROP> [--tier quick|thorough] [--seed N] [--root DIR] | cbsim replay <PROP> <file>");
+        std::process::exit(2)
+    };
+    if args.len() < 3 {
+        usage();
+    }
+    let cmd = args[1].as_str();
+    let prop = args[2].as_str();
+    let mut tier = match std::env::var("VERIF_TIER").as_deref() {
+        Ok("thorough") => Tier::Thorough,
+        _ => Tier::Quick,
+    };
+    let mut seed: u64 = std::env::var("VERIF_SEED").ok().and_then(|s| s.trim().parse().ok()).unwrap_or(1);
+    let mut root = PathBuf::from(std::env::var("CBSIM_ROOT").unwrap_or_else(|_| "/verif".into()));
+    let mut file: Option<PathBuf> = None;
+    let mut i = 3;
+    while i < args.len() {
+        match args[i].as_str() {
+            "--tier" => {
+                i += 1;
+                tier = match args.get(i).map(|s| s.as_str()) {
+                    Some("quick") => Tier::Quick,
+                    Some("thorough") => Tier::Thorough,
+                    _ => usage(),
+                };
+            }
+            "--seed" => {
+                i += 1;
+                seed = args.get(i).and_then(|s| s.parse().ok()).unwrap_or_else(|| usage());
+            }
+            "--root" => {
+                i += 1;
+                root = PathBuf::from(args.get(i).cloned().unwrap_or_else(|| usage()));
+            }
+            other if cmd == "replay" && file.is_none() => file = Some(PathBuf::from(other)),
+            _ => usage(),
+        }
+        i += 1;
+    }
+    let Some((scenarios, mut rep)) = scenarios_for(prop) else {
+        eprintln!("harness error: unknown or unclaimed property {prop}");
+        std::process::exit(2);
+    };
+    rep.tier = tier;
+    rep.seed = seed;
+    rep.root = root.clone();
+    println!("cbsim {} {} VERIF_SEED={} tier={} workers={} profile={}", cmd, prop, seed, tier.name(), core::workers(), if cfg!(debug_assertions) { "dbg" } else { "release" });
+    let code = match cmd {
+        "run" => core::run_property(rep, scenarios),
+        "replay" => {
+            let Some(f) = file else { usage() };
+            core::replay_file(&f, rep.property, &scenarios, &root)
+        }
+        _ => usage(),
+    };
+    std::process::exit(code);
+}
